@@ -10,10 +10,25 @@ Record case := mkCase {
   c_locs : list (list loc);                            (* impl: the compiled update locations of every row *)
   c_chain : bool;                                      (* one literal per row: compile itself is modelled *)
   c_hints : list comp;                                 (* otherwise: the component structure (factors, leaves) compile() derives *)
+  c_order : list nat;                                  (* np.argsort(degrees): the visiting order of the greedy leaf selection *)
+  c_comps : list (list nat);                           (* scipy's connected components *)
+  c_degrees : list nat;                                (* the degrees the code computes *)
   c_queries : list (nat * nat * option nat * list nat) (* (target, boundary_with, boundary_without, impl counts in domain order) *)
 }.
 
 Definition eqb_locs := eqb_list (eqb_list eqb_loc).
+
+(* the graph step: the recomputed inputs are admissible (graph_ok), the degrees are the modelled ones, the order is sorted by
+   degree, and the modelled derivation yields the structure the code derives *)
+Definition eqb_comp (a b : comp) : bool := eqb_nats (fst a) (fst b) && eqb_nats (snd a) (snd b).
+Fixpoint sorted_by (f : nat -> nat) (l : list nat) : bool :=
+  match l with a :: ((b :: _) as r) => Nat.leb (f a) (f b) && sorted_by f r | _ => true end.
+Definition graph_step_ok (c : case) : bool :=
+  let p := c_prob c in let n := p_units p in
+  graph_ok n (p_rows p) (c_order c) (c_comps c)
+  && eqb_nats (c_degrees c) (map (degree (p_rows p) n) (seq 0 n))
+  && sorted_by (degree (p_rows p) n) (c_order c)
+  && eqb_lists eqb_comp (build_hints n (p_rows p) (c_order c) (c_comps c)) (c_hints c).
 
 Definition check (c : case) : bool * bool * bool :=
   let p := c_prob c in let d := c_add c in let locs := c_locs c in
@@ -22,7 +37,8 @@ Definition check (c : case) : bool * bool * bool :=
                 then let '(d', l') := compile_chain (p_type p) (p_units p) (map (fun r => (hd 0 r, true)) (p_rows p)) in
                      eqb_locs locs l' && eqb_nats (d_units d) (d_units d') && Nat.eqb (length (d_levels d)) (length (d_levels d'))
                 else let '(dm, lm) := compile_model (p_type p) (c_hints c) (p_rows p) in
-                     hints_ok (p_units p) (p_rows p) (c_hints c) && eqb_add dm d && eqb_lists same_locs lm locs) in
+                     hints_ok (p_units p) (p_rows p) (c_hints c) && eqb_add dm d && eqb_lists same_locs lm locs
+                     && graph_step_ok c) in
   let total := 2 ^ (p_units p - 1) in
   ( ok && forallb (fun q => let '(tg, t1, t2, cnts) := q in
                             match oracle_query p d locs tg t1 t2 with Some m => eqb_nats cnts m | None => false end) (c_queries c),
